@@ -150,11 +150,8 @@ FArm(s) == [s EXCEPT !.timer = IF s.specLeft > 0 THEN "spec" ELSE "timeout",
                      !.specLeft = IF @ > 0 THEN @ - 1 ELSE 0]
 
 (* ------------------------------------------------------------------------ *)
-Init ==
-    /\ pool \in {f \in [Hosts -> PoolConds \cup {"healthy"}] : Cardinality({h \in Hosts : f[h] # "healthy"}) <= MaxBad}
-    /\ idem \in IdemChoices
-    /\ target \in TargetChoices
-    /\ specLeft \in SpecChoices
+InitWith(pl, id, tg, sp) ==
+    /\ pool = pl /\ idem = id /\ target = tg /\ specLeft = sp
     /\ started = FALSE
     /\ plan = <<>> /\ tried = <<>> /\ errs = [h \in Hosts |-> "none"] /\ att = {}
     /\ sentLog = <<>> /\ policyLog = <<>> /\ retries = 0 /\ cl = InitCL
@@ -162,6 +159,10 @@ Init ==
     /\ cb = [e \in 1..MaxEpoch |-> 0] /\ eb = [e \in 1..MaxEpoch |-> 0] /\ dlv = [e \in 1..MaxEpoch |-> "none"]
     /\ queue = <<>> /\ epoch = 1 /\ lastConn = 0 /\ reqAtt = 0
     /\ act = A("Init", 0, "-", "-", 0)
+
+PoolVectors == {f \in [Hosts -> PoolConds \cup {"healthy"}] : Cardinality({h \in Hosts : f[h] # "healthy"}) <= MaxBad}
+
+Init == \E pl \in PoolVectors, id \in IdemChoices, tg \in TargetChoices, sp \in SpecChoices : InitWith(pl, id, tg, sp)
 
 (* Session.execute_async: _create_response_future (plan, timer; a speculative plan only for           *)
 (* idempotent statements), callbacks registered by a request-init listener, send_request().           *)
